@@ -140,14 +140,14 @@ static const char* cplx_known(const Options& o, const COp& op, cld a, cld b, dou
     {
         // D23: pow(z, y) = exp(y log z) loses about one eps per unit of |y log z| (complex logarithm: modulus and angle)
         ld t = fabsl(b.real()) * std::abs(std::log(a));
-        if (t > 8 && err <= 4.0 * (1.0 + (double)t))
+        if (t > 6 && err <= 4.0 * (1.0 + (double)t))
             return "cpow_large_exponent";
     }
     if ((n == "tan" || n == "tanh") && o.known.count("ctan_near_pole"))
     {
         // D22: cancellation in the denominator cos 2x + cosh 2y (tanh: cosh 2x + cos 2y)
         ld d = n == "tan" ? cosl(2 * a.real()) + coshl(2 * a.imag()) : coshl(2 * a.real()) + cosl(2 * a.imag());
-        if (fabsl(d) < 0.03125L && err <= 32.0 / (double)fabsl(d))
+        if (fabsl(d) < 0.125L && err <= 32.0 / (double)fabsl(d))
             return "ctan_near_pole";
     }
     return nullptr;
